@@ -217,9 +217,19 @@ def run(ctx):
         if not good_guard:
             r2.violation("%s:guard" % short, "the quoter call is not dominated by the true edge of get_smart_quote()", site_of(b, qbb))
             continue
+        # once the option is on, every path must run the quoter: the call post-dominates the target of the option's true edge
+        # (a condition joined with `||` dominates nothing, so dominance of the guards alone would not see it)
+        t_edges = []
+        for (node, vals, tgt) in b.switch_edges(gsw):
+            from engine.analyses import bool_switch_polarity
+            if bool_switch_polarity(b, gsw).get(node) is True:
+                t_edges.append(tgt)
+        bypass = [tgt for tgt in t_edges if tgt != qbb and not b.postdominates(qbb, tgt)]
         if extra:
             r2.violation("%s:guard" % short, "the quoter is applied only under an additional condition: %s" % ", ".join("%r=%s" % (d, p) for d, p in extra)[:300],
                          site_of(b, qbb))
+        elif bypass or not t_edges:
+            r2.violation("%s:guard" % short, "with the option on some path skips the quoter (it is applied only under an additional condition)", site_of(b, bypass[0] if bypass else gsw))
         else:
             r2.ok("%s:guard" % short, "quoter call guarded by exactly get_smart_quote() == true")
         # the guard itself must be unconditional in the builder (dominates every return)
